@@ -2,6 +2,7 @@
 frappy.persistent.PersistentMixin that records every file-system call and injects a crash or an OSError at any of
 them), case encoder, direct oracle, generators"""
 import base64
+import functools
 import io
 import json
 import os
@@ -57,8 +58,9 @@ ASSUMPTIONS = [
     'with the encoding and error handler given to open (strict by default: a lone surrogate raises UnicodeEncodeError out '
     'of write, before any file-system call); model side: the text of a document is ASCII (facts dump_text_is_ascii, '
     'tmp_file_is_utf8_text), so no write fails for encoding reasons',
-    'string values never hold a high surrogate directly followed by a low surrogate (two code points that the JSON '
-    'escape of CPython does not distinguish from the one non-BMP character they would encode in UTF-16)',
+    'string values holding a high surrogate directly followed by a low surrogate as two code points are generated (a '
+    'small share) and modelled: the JSON text reads back with the pair joined into one code point (jtext of Model.v); '
+    'that the value is not restored is the open finding C17/adjacent-surrogate-pair-not-restored',
 ]
 
 WORKDIR = os.path.join(os.path.dirname(os.path.dirname(os.path.dirname(os.path.abspath(__file__)))), '.work', 'C17-fs')
@@ -1368,7 +1370,7 @@ def _oracle_conc(case, obs):
     doc = None if obs['raw'] is None else _doc_of(bytes(obs['raw']))
     if not why and exp is not None and not obs['mod']['wd'] and any(doc[k] != exp[k] for k in auto):
         fail('save-lost', f'concurrent assignments, all threads finished: the disk has {doc}, the values are {exp}; '
-                          f'schedule: {sched}')
+                          f'schedule: {sched}', expected_doc=exp, got_doc=doc)
     rs = obs['restart']
     if rs['exc'] is not None:
         fail('startup-raised', f'restart after the concurrent assignments raised {rs["exc"]}', exc=rs['exc'],
@@ -1377,7 +1379,8 @@ def _oracle_conc(case, obs):
         for n in auto:
             if not cv_eq(rs['vals'][n], obs['mod']['vals'][n]):
                 fail('roundtrip', f'concurrent assignments: {n} was {obs["mod"]["vals"][n]} when all threads had finished, '
-                                  f'is {rs["vals"][n]} after a restart; schedule: {sched}')
+                                  f'is {rs["vals"][n]} after a restart; schedule: {sched}',
+                     param=n, expected=obs['mod']['vals'][n], got=rs['vals'][n])
                 break
     return fails
 
@@ -1784,6 +1787,46 @@ def _doc_of(raw):
         return None
 
 
+def _is_high_cp(c):
+    return 0xd800 <= ord(c) <= 0xdbff
+
+
+def _is_low_cp(c):
+    return 0xdc00 <= ord(c) <= 0xdfff
+
+
+def has_adjacent_pair(v):
+    """a string leaf of the (JSON-able) value holds a high surrogate directly followed by a low surrogate as two
+    separate code points"""
+    if isinstance(v, str):
+        return any(_is_high_cp(a) and _is_low_cp(b) for a, b in zip(v, v[1:]))
+    if isinstance(v, dict):
+        return any(has_adjacent_pair(k) or has_adjacent_pair(x) for k, x in v.items())
+    if isinstance(v, (list, tuple)):
+        return any(has_adjacent_pair(x) for x in v)
+    return False
+
+
+def text_reading(v):
+    """what the JSON text of the value reads back as: every adjacent surrogate pair joined into one code point, nothing
+    else changed (written from the JSON / UTF-16 rule, not with the json module)"""
+    if isinstance(v, str):
+        out, i = [], 0
+        while i < len(v):
+            if i + 1 < len(v) and _is_high_cp(v[i]) and _is_low_cp(v[i + 1]):
+                out.append(chr(0x10000 + ((ord(v[i]) - 0xd800) << 10) + (ord(v[i + 1]) - 0xdc00)))
+                i += 2
+            else:
+                out.append(v[i])
+                i += 1
+        return ''.join(out)
+    if isinstance(v, dict):
+        return {text_reading(k): text_reading(x) for k, x in v.items()}
+    if isinstance(v, (list, tuple)):
+        return [text_reading(x) for x in v]
+    return v
+
+
 def _expected_snapshot(case, vals):
     """transport form of the current values of all persistent parameters (None when a value is not valid)"""
     res = {}
@@ -1841,14 +1884,15 @@ def oracle(case, obs):
                 exp = _expected_snapshot(case, st['mod']['vals'])
                 if exp is not None and doc != exp:
                     fail('roundtrip', f'op {idx} ({kind}): stored snapshot {doc} is not the transport form {exp} of the '
-                                      'current values')
+                                      'current values', expected_doc=exp, got_doc=doc)
             elif st['mod'] is None and st['crashed'] and kind in ('set', 'save') and prev_mod is not None:
                 # the process died in this operation: the NEW snapshot is that of the values it was saving
                 vals = dict(prev_mod['vals'])
                 if kind == 'set':
                     vals[op[1]] = op[2]
                 exp = _expected_snapshot(case, vals)
-                if exp is not None and doc != exp:
+                # (atomicity is about the file being the COMPLETE text of the new snapshot: what that text reads as)
+                if exp is not None and doc != text_reading(exp):
                     fail('atomic', f'op {idx} ({kind}, fault {fault}): the stored file after the crash {doc} is neither '
                                    f'the previous snapshot nor the new one {exp}')
         wrote = after != before
@@ -1880,12 +1924,14 @@ def oracle(case, obs):
                 if failed_save is not None:
                     fail('failed-save-not-retried',
                          f'op {idx} ({kind}): the save of op {failed_save} failed with an I/O error; this save did not '
-                         f'write either: disk has {doc}, values are {exp}', failed_at=failed_save)
+                         f'write either: disk has {doc}, values are {exp}', failed_at=failed_save,
+                         expected_doc=exp, got_doc=doc)
                 elif st['exc'] is not None:
                     fail('save-raised', f'op {idx}: saveParameters() without any file-system fault raised {st["exc"]} and '
                                         f'did not save: disk has {doc}, values are {exp}', exc=st['exc'])
                 else:
-                    fail('save-lost', f'op {idx} ({kind}): after a successful save the disk has {doc}, values are {exp}')
+                    fail('save-lost', f'op {idx} ({kind}): after a successful save the disk has {doc}, values are {exp}',
+                         expected_doc=exp, got_doc=doc)
             if exp is not None:
                 synced = (idx, dict(st['mod']['vals']))
         if st['fired'] and fault and fault['kind'] == 'err' and st['mod'] is not None and not wrote and \
@@ -1937,13 +1983,14 @@ def oracle(case, obs):
                     fail('tolerant-load', f'op {idx}: {n} has no stored entry but is {got}, default {p["default"]}')
                 if cur_saved_vals is not None and before is not None and n in cur_saved_vals and \
                         not cv_eq(got, cur_saved_vals[n]):
-                    fail('roundtrip', f'op {idx}: {n} was {cur_saved_vals[n]} when saved, is {got} after loading')
+                    fail('roundtrip', f'op {idx}: {n} was {cur_saved_vals[n]} when saved, is {got} after loading',
+                         param=n, expected=cur_saved_vals[n], got=got)
                 # (5) restart: every value the module had accepted when it last saved (the operation before was a
                 #     save without fault: explicit, automatic after an assignment, or that of start-up) is back
                 if synced_before is not None and not st['fired'] and not cv_eq(got, synced_before[1][n]):
                     fail('restart-lost', f'op {idx}: {n} was {synced_before[1][n]!r} after op {synced_before[0]} '
                                          f'({case["ops"][synced_before[0]][0]}: a save without fault) and is {got!r} '
-                                         'after the restart')
+                                         'after the restart', param=n, expected=synced_before[1][n], got=got)
             if wrote:
                 cur_saved_vals = dict(st['mod']['vals'])
     return fails
@@ -1992,7 +2039,35 @@ def _f_range(case, obs, failure):
     return failure['class'] == 'invalid-entry-loaded'
 
 
+def _f_adjacent_pair(case, obs, failure):
+    """C17/adjacent-surrogate-pair-not-restored: the value that was to be stored / restored holds a high surrogate
+    directly followed by a low surrogate as two code points, and what is on disk / came back is EXACTLY what the JSON
+    text of that value reads as (the pair joined), or - for a restored parameter - the default because the joined
+    string is not valid for the datatype.  Any other difference is not covered."""
+    cls = failure['class']
+    if cls in ('roundtrip', 'save-lost', 'failed-save-not-retried') and isinstance(failure.get('expected_doc'), dict):
+        exp, doc = failure['expected_doc'], failure.get('got_doc')
+        if not isinstance(doc, dict) or sorted(doc) != sorted(exp):
+            return False
+        diff = [k for k in exp if doc[k] != exp[k]]
+        return bool(diff) and all(has_adjacent_pair(exp[k]) and doc[k] == text_reading(exp[k]) for k in diff)
+    if cls in ('roundtrip', 'restart-lost') and 'param' in failure:
+        n = failure['param']
+        if not (isinstance(n, str) and n[:1] == 'p' and n[1:].isdigit() and int(n[1:]) < len(case['params'])):
+            return False
+        p = case['params'][int(n[1:])]
+        exp, got = failure['expected'], failure['got']
+        if not has_adjacent_pair(exp):
+            return False
+        joined = text_reading(exp)
+        if spec_valid(p['dt'], joined):
+            return cv_eq(got, joined)
+        return cv_eq(got, p['default'])
+    return False
+
+
 FINDING_CLASSIFIERS = {
+    'adjacent_surrogate_pair_not_restored': _f_adjacent_pair,
     'out_of_range_entry_loaded': _f_range,
     'failed_save_considered_done': _f_retry,
     'nonobject_document_prevents_startup': _f_nonobject,
@@ -2084,6 +2159,9 @@ HIGH_SUR = '\ud800\ud83d\udbff'                    # lone high surrogates
 LOW_SUR = '\udc00\udc80\udcff\ude00\udfff'          # lone low surrogates (dc80-dcff: surrogateescape)
 
 
+PAIR_SHARE = 0.25          # share of the (high, low) draws that are kept as an adjacent pair
+
+
 def _is_high(c):
     return 0xd800 <= ord(c) <= 0xdbff
 
@@ -2093,9 +2171,10 @@ def _is_low(c):
 
 
 def gen_str(dt, rng, special=None):
-    """a valid value of ['str', minc, maxc, utf8].  A high surrogate is never directly followed by a low one: such a
-    two-code-point string is written as the escape of ONE non-BMP character (CPython json; see notes 'paired
-    surrogates') - lone surrogates, low-before-high and surrogates next to other characters are all generated."""
+    """a valid value of ['str', minc, maxc, utf8]: lone surrogates, low-before-high, surrogates next to other
+    characters, and - a small share (PAIR_SHARE of the positions after a high surrogate) - a high surrogate directly
+    followed by a low one as two code points: such a string is written as the escape of ONE non-BMP character (CPython
+    json) and is not restored (open finding C17/adjacent-surrogate-pair-not-restored)."""
     n = rng.randint(dt[1], dt[2])
     if special is None:
         special = rng.random() < 0.45
@@ -2106,7 +2185,7 @@ def gen_str(dt, rng, special=None):
     out = []
     for _ in range(n):
         c = rng.choice(rng.choice(pools))
-        if out and _is_high(out[-1]) and _is_low(c):
+        if out and _is_high(out[-1]) and _is_low(c) and rng.random() >= PAIR_SHARE:
             c = rng.choice(HIGH_SUR + ALPHA)
         out.append(c)
     return ''.join(out)
@@ -2460,7 +2539,9 @@ STRING_MODULES = [
 STRING_VALUES_ASCII = ['ab', 'a\tb', '\x01', '\x7f\x1f', 'a"b\\', '\n', '\r\n', '</']
 STRING_VALUES_UTF8 = ['é', '5 °C', '3 µT', '中', '\x80', '\u2028', '\ufeff', '\uffff', '\U0001f600', 'a\U00010000b',
                       '\U0010ffff', '\ud83d', '\ude00', '\udcff', 'a\ud83d', '\ud83db', '\udc80z', '\ude00\ud83d',
-                      '\ud83d\ud83d', '\ud800 \udfff', '\U0001f600\ud83d', '\ud83d\U0001f600', 'é\udcffé']
+                      '\ud83d\ud83d', '\ud800 \udfff', '\U0001f600\ud83d', '\ud83d\U0001f600', 'é\udcffé',
+                      # a high surrogate directly followed by a low one, as two code points (open finding)
+                      '\ud83d' + '\ude00', 'a' + '\ud800' + '\udc00', '\ud83d' + '\ud83d' + '\ude00']
 
 
 def _with_string(dt, sval, rng):
@@ -2566,3 +2647,59 @@ def shrink(case):
             yield dict(case, ops=ops[:i] + [op[:-1] + [None]] + ops[i + 1:])
         if op[0] == 'init' and op[1]:
             yield dict(case, ops=ops[:i] + [['init', {}, op[2]]] + ops[i + 1:])
+
+
+# ------------------------------------------------------------------ JSON-safe form of cases
+# A case is stored as JSON (corpus files, replay files, findings).  JSON text cannot tell a str holding a high
+# surrogate directly followed by a low one (two code points) from the one non-BMP character - which is the very
+# defect of the open finding - so such a string travels as {'str_codepoints': [..]}; every entry point takes both forms.
+PAIR_TAG = 'str_codepoints'
+
+
+def tag_case(x):
+    if isinstance(x, str):
+        return {PAIR_TAG: [ord(c) for c in x]} if has_adjacent_pair(x) else x
+    if isinstance(x, dict):
+        return {k: tag_case(v) for k, v in x.items()}
+    if isinstance(x, (list, tuple)):
+        return [tag_case(v) for v in x]
+    return x
+
+
+def untag_case(x):
+    if isinstance(x, dict):
+        if set(x) == {PAIR_TAG}:
+            return ''.join(chr(c) for c in x[PAIR_TAG])
+        return {k: untag_case(v) for k, v in x.items()}
+    if isinstance(x, (list, tuple)):
+        return [untag_case(v) for v in x]
+    return x
+
+
+def _takes_case(fn):
+    @functools.wraps(fn)
+    def wrapped(case, *a, **kw):
+        return fn(untag_case(case), *a, **kw)
+    return wrapped
+
+
+run_case = _takes_case(run_case)
+encode = _takes_case(encode)
+model_result_term = _takes_case(model_result_term)
+oracle = _takes_case(oracle)
+nontrivial_key = _takes_case(nontrivial_key)
+outcome_labels = _takes_case(outcome_labels)
+sample_repr = _takes_case(sample_repr)
+_gen_cases_plain, _shrink_plain = gen_cases, shrink
+
+
+def gen_cases(seed, tier):
+    return [tag_case(c) for c in _gen_cases_plain(seed, tier)]
+
+
+def shrink(case):
+    for c in _shrink_plain(untag_case(case)):
+        yield tag_case(c)
+
+
+FINDING_CLASSIFIERS = {k: _takes_case(f) for k, f in FINDING_CLASSIFIERS.items()}
